@@ -516,6 +516,7 @@ func (ex *Exec) callBuiltin(st *State, fr *Frame, name string, args []Value, cal
 	case "copy":
 		return ex.builtinCopy(st, args[0].(SliceVal), args[1]), ctlRet
 	case "delete":
+		ex.guardCheckMap(st, fr, args[0].(MapVal), true)
 		ex.mapDelete(st, args[0].(MapVal), args[1])
 		return nil, ctlRet
 	case "close":
